@@ -72,9 +72,10 @@ static void oracle(const MEntry &e, const u64 *st, const u64 *co, u64 *ex)
     }
 }
 
+static thread_local int g_pl = 0; // placement of the coefficient array (see MTab::set_place)
 static std::string casestr(const MEntry &e, const char *side, const u64 *st, const u64 *co)
 {
-    return fmt("w=%u kernel=%s side=%s state=", W, e.name, side) + joinhex(st, 12 * e.nstates) + " coef=" + joinhex(co, coef_len(e.kind));
+    return fmt("w=%u kernel=%s side=%s state=", W, e.name, side) + joinhex(st, 12 * e.nstates) + " coef=" + joinhex(co, coef_len(e.kind)) + (g_pl ? fmt(" pl=%d", g_pl) : std::string());
 }
 
 struct Counters { long long evals = 0, cases = 0, nontriv = 0; };
@@ -357,8 +358,11 @@ static void explore(const MTab &T, const char *side, const Args &args)
             preimage_miss += miss;
             rep().sample(fmt("colsum-%s", e.name), fmt("\"w\":%u,\"kernel\":\"%s\",\"what\":\"all 4-tuples of row-result representations over %zu values fed to the column sums\",\"tuples\":%lld", W, e.name, n, c.cases), 1);
         }
-        // ------------------------------------------------------------ routing
+        // ------------------------------------------------------------ routing (and, for the coefficient array, every address modulo 64)
+        for (int pl = 0; pl < 8; pl++)
         {
+            g_pl = pl;
+            T.set_place(pl);
             Counters c;
             u64 st[24], co[144], out[24];
             int cl = coef_len(e.kind);
@@ -381,6 +385,8 @@ static void explore(const MTab &T, const char *side, const Args &args)
                 c.cases++;
             }
             tc.evals += c.evals; tc.cases += c.cases; tc.nontriv += c.nontriv;
+            g_pl = 0;
+            T.set_place(0);
         }
         // ------------------------------------------------------------ dev2 (native and w=8/32 models): <=2 deviations over alphabet
         if (W >= 8 && !(e.alias && W == 8))
@@ -459,6 +465,8 @@ static int run_one(const Args &args)
             co.resize(144);
             u64 out[24];
             Counters c;
+            g_pl = (int)cu(m, "pl", 0);
+            T->set_place(g_pl);
             run_check(T->e[i], side.c_str(), st.data(), co.data(), out, c, "replay");
         }
     rep().flush();
